@@ -139,7 +139,11 @@ def load_text(schema, text, overrides=(), url=None, rec=None):
         cfg, handler = ZConfig.loadConfigFile(schema, io.StringIO(text), url=url, overrides=list(overrides))
     except Exception as e:
         return project.exc_outcome(e), None
-    return {"r": "ok", "tree": project.proj_section(cfg, rec, top=True) if rec else None}, (cfg, handler)
+    try:
+        tree = project.proj_section(cfg, rec, top=True) if rec else None
+    except Exception as e:      # the returned object cannot even be read: an observation, not a harness failure
+        tree = {"unprojectable": "%s: %s" % (type(e).__name__, e)}
+    return {"r": "ok", "tree": tree}, (cfg, handler)
 
 
 def compare_outcome(want, got, check_tree=True):
